@@ -212,6 +212,13 @@ func (w *world) verifyFunc(con *Contract, fn *ssa.Function, mode string, variant
 			goal := x.evalEnsures(con, cl, x.pre.clone(), cloneOrNil(o.st.snaps["lp"]), cloneOrNil(o.st.snaps["lpend"]), o.st, penv, renv)
 			x.oblige(o.st, "ensures", cl.Tag(), "", goal, "")
 		}
+		if con.Delegates != "" {
+			x.delegateObligations(o.st, con, penv, o.ret)
+		}
+		if len(con.CallsOnly) > 0 {
+			// calls-only (checked at every call through a contract, see contractCall): recorded once per path for the expected list
+			x.oblige(o.st, "calls-only", strings.Join(con.CallsOnly, ","), "", "true", "")
+		}
 		if !con.Flags["noframe"] {
 			x.frameObligations(o.st, con, penv, o.ret)
 		}
@@ -677,5 +684,104 @@ func (w *world) discharge(x *ctx, con *Contract, mode, variant string, modelVars
 func debugf(format string, a ...any) {
 	if os.Getenv("GOVC_DEBUG") != "" {
 		fmt.Fprintf(os.Stderr, format+"\n", a...)
+	}
+}
+
+// delegateObligations: `delegates TARGET on EXPR` — on this path the function made exactly one call through a contract,
+// that call went to TARGET on the receiver EXPR (evaluated in the entry state), the function's own parameters were
+// passed through in order, and the results of the call are returned unchanged.
+func (x *ctx) delegateObligations(st *state, con *Contract, penv envFn, ret val) {
+	tag := "delegates-to-" + shortTarget(con.Delegates)
+	if len(st.dcalls) != 1 || st.dcalls[0].target != con.Delegates {
+		var got []string
+		for _, r := range st.dcalls {
+			got = append(got, r.target)
+		}
+		x.oblige(st, "delegates", tag, "exactly-one-call", "false", "calls made: "+strings.Join(got, ", "))
+		return
+	}
+	rec := st.dcalls[0]
+	eqv := func(a, b val) (string, bool) {
+		var ta, tb []term
+		ok := true
+		flattenPlain(a, &ta, &ok)
+		flattenPlain(b, &tb, &ok)
+		if !ok || len(ta) != len(tb) {
+			return "", false
+		}
+		var cs []string
+		for i := range ta {
+			if ta[i].srt.name != tb[i].srt.name {
+				return "", false
+			}
+			cs = append(cs, eq(ta[i], tb[i]))
+		}
+		return and(cs...), true
+	}
+	if con.DelegateFn != "" {
+		f := x.synth(con, con.DelegateFn)
+		want := x.evalSpecFn(x.pre.clone(), f, nil, x.bindArgs(f, nil, penv))
+		if g, ok := eqv(rec.args[0], want); ok {
+			x.oblige(st, "delegates", tag, "receiver", g, "")
+		} else {
+			x.oblige(st, "delegates", tag, "receiver", "false", "receiver not comparable")
+		}
+	}
+	// own parameters (receiver excluded) are the callee's arguments (receiver excluded), in order
+	own := x.fn.Params
+	if x.fn.Signature.Recv() != nil {
+		own = own[1:]
+	}
+	cargs := rec.args
+	if len(cargs) > 0 && con.DelegateFn != "" {
+		cargs = cargs[1:]
+	}
+	var wantArgs []val
+	var wantNames []string
+	if con.HasDelegateArgs {
+		for i, fnm := range con.DelegateArgFns {
+			f := x.synth(con, fnm)
+			wantArgs = append(wantArgs, x.evalSpecFn(x.pre.clone(), f, nil, x.bindArgs(f, nil, penv)))
+			wantNames = append(wantNames, fmt.Sprint(i))
+		}
+	} else {
+		for _, p := range own {
+			wantArgs = append(wantArgs, x.params[p.Name()])
+			wantNames = append(wantNames, p.Name())
+		}
+	}
+	if len(wantArgs) != len(cargs) {
+		x.oblige(st, "delegates", tag, "arguments", "false", "argument count differs")
+	} else {
+		for i, pv := range wantArgs {
+			if pv.cb != nil || cargs[i].cb != nil || pv.fn != nil || cargs[i].fn != nil {
+				if pv.cb != cargs[i].cb || pv.fn != cargs[i].fn {
+					x.oblige(st, "delegates", tag, "argument-"+wantNames[i], "false", "function argument not passed through")
+				} else {
+					x.oblige(st, "delegates", tag, "argument-"+wantNames[i], "true", "")
+				}
+				continue
+			}
+			if g, ok := eqv(cargs[i], pv); ok {
+				x.oblige(st, "delegates", tag, "argument-"+wantNames[i], g, "")
+			} else {
+				x.oblige(st, "delegates", tag, "argument-"+wantNames[i], "false", "argument not comparable")
+			}
+		}
+	}
+	if ret.iter != nil || rec.ret.iter != nil || ret.fn != nil || rec.ret.fn != nil {
+		if ret.iter == rec.ret.iter && ret.fn == rec.ret.fn {
+			x.oblige(st, "delegates", tag, "result", "true", "")
+		} else {
+			x.oblige(st, "delegates", tag, "result", "false", "the returned iterator is not the callee's")
+		}
+		return
+	}
+	if ret.t.s != "" || ret.agg {
+		if g, ok := eqv(ret, rec.ret); ok {
+			x.oblige(st, "delegates", tag, "result", g, "")
+		} else {
+			x.oblige(st, "delegates", tag, "result", "false", "result not comparable")
+		}
 	}
 }
